@@ -64,6 +64,11 @@ char *get_elf_interpreter(int exe_fd, struct trace *trace) {
         total_read += iter_read;
       }
 
+      if (!program_header.p_filesz || result[program_header.p_filesz - 1]) {
+        free(result);
+        return NULL;
+      }
+
       char *resolved = TNULL(realpath(result, NULL), trace);
       free(result);
       return resolved;
